@@ -283,3 +283,122 @@ def gen_divzero_contract(rnd: random.Random, ops=None, name: str = "DivZeroTest"
             metas.append(TestMeta(sig, 2, [sorted(set(xs + [w[0] for w in wit])), sorted(set(ys + [w[1] for w in wit]))], list(wit), desc,
                                   uses_div=True, leaves={"panic1", "ok"}))
     return Contract(name, fns), metas
+
+
+# ---------------------------------------------------------------------------------------------
+# Tests with dynamic parameters (uint256[] and bytes): the failure needs a particular length among the
+# candidates halmos was told to consider, and particular contents.
+
+
+def encode_abi(sig: str, args: tuple) -> bytes:
+    """ABI-encode (selector + arguments) for parameter types uint256, uint256[] and bytes."""
+    types = sig[sig.index("(") + 1 : -1].split(",")
+    head, tail = [], b""
+    for t, a in zip(types, args):
+        if t == "uint256":
+            head.append(a.to_bytes(32, "big"))
+        else:
+            head.append(None)
+    hsize = 32 * len(types)
+    out_head = []
+    for t, a, h in zip(types, args, head):
+        if h is not None:
+            out_head.append(h)
+            continue
+        out_head.append((hsize + len(tail)).to_bytes(32, "big"))
+        if t == "uint256[]":
+            tail += len(a).to_bytes(32, "big") + b"".join(x.to_bytes(32, "big") for x in a)
+        elif t == "bytes":
+            tail += len(a).to_bytes(32, "big") + bytes(a) + b"\0" * (-len(a) % 32)
+        else:
+            raise ValueError(t)
+    return bytes.fromhex(selector_of(sig)) + b"".join(out_head) + tail
+
+
+def selector_of(sig: str) -> str:
+    from .artifacts import selector
+
+    return selector(sig)
+
+
+DYN_CONFIGS = [
+    # (cli, array length candidates, bytes length candidates)
+    ((), [0, 1, 2], [0, 65, 1024]),
+    (("--default-array-lengths", "0,3", "--default-bytes-lengths", "4,36"), [0, 3], [4, 36]),
+    (("--default-array-lengths", "3,1", "--default-bytes-lengths", "36,4"), [3, 1], [36, 4]),  # not ascending
+    (("--array-lengths", "p0=2,p1=33"), [2], [33]),
+    (("--array-lengths", "p0={4,1},p1={40,8}"), [4, 1], [40, 8]),
+]
+
+
+def gen_dynamic_contract(rnd: random.Random, cfg: int, name: str = "DynTest"):
+    """check_arr(uint256[] p0, uint256 p1) / check_bytes(uint256 p0, bytes p1) / check_both(uint256[] p0, bytes p1):
+    Panic(1) iff the dynamic argument has length L (one of the configured candidates) and a chosen element / byte
+    has a chosen value (and, for some, the static argument matches)."""
+    cli, alens, blens = DYN_CONFIGS[cfg % len(DYN_CONFIGS)]
+    fns = [Fn("setUp()", [("PUSH", 1), ("PUSH", 0), "SSTORE", "STOP"])]
+    metas = []
+    lid = [0]
+
+    def lab():
+        lid[0] += 1
+        return f"dy{lid[0]}"
+
+    def dyn_base(i):  # start of the i-th (dynamic) argument's encoding: 4 + offset
+        return [("PUSH", 4 + 32 * i), "CALLDATALOAD", ("PUSH", 4), "ADD"]
+
+    def require(cond_code, end):  # continue only if cond_code leaves non-zero
+        return cond_code + ["ISZERO", ("PUSHL", end), "JUMPI"]
+
+    for t in range(3):
+        kind = ["arr", "bytes", "both"][t]
+        end = lab()
+        body = []
+        if kind in ("arr", "both"):
+            # (when the candidates are not listed in ascending order, the largest one is the interesting length)
+            L = max(alens) if alens != sorted(alens) and kind == "arr" else rnd.choice([x for x in alens if x > 0] or alens)
+            k = rnd.randrange(L) if L else 0
+            c = rnd.choice([7, 42, 2**255, M256 - 1])
+            body += require(dyn_base(0) + ["CALLDATALOAD", ("PUSH", L), "EQ"], end)
+            if L:
+                body += require(dyn_base(0) + [("PUSH", 32 + 32 * k), "ADD", "CALLDATALOAD", ("PUSHN", 32, c), "EQ"], end)
+            arr = [0] * L
+            if L:
+                arr[k] = c
+        if kind in ("bytes", "both"):
+            B = max(blens) if blens != sorted(blens) and kind == "bytes" else rnd.choice([x for x in blens if x > 0] or blens)
+            j = rnd.randrange(B) if B else 0
+            v = rnd.choice([1, 0x2A, 0xFF])
+            body += require(dyn_base(1) + ["CALLDATALOAD", ("PUSH", B), "EQ"], end)
+            if B:
+                # the byte at index j: top byte of the word loaded at data+j
+                body += require(dyn_base(1) + [("PUSH", 32 + j), "ADD", "CALLDATALOAD", ("PUSH", 248), "SHR", ("PUSH", v), "EQ"], end)
+            bts = bytearray(B)
+            if B:
+                bts[j] = v
+        if kind == "arr":
+            d = rnd.choice([0, 5, 2**200])
+            body += require([("PUSH", 36), "CALLDATALOAD", ("PUSHN", 32, d), "EQ"], end)
+            sig = "check_arr(uint256[],uint256)"
+            wit = (arr, d)
+            others = [([], d), (arr, d + 1), ([x ^ 1 for x in arr], d), (arr + [0], d)]
+            desc = f"p0.length=={L} && p0[{k}]=={c:#x} && p1=={d:#x}"
+        elif kind == "bytes":
+            d = rnd.choice([0, 9])
+            body += require([("PUSH", 4), "CALLDATALOAD", ("PUSH", d), "EQ"], end)
+            sig = "check_bytes(uint256,bytes)"
+            wit = (d, bytes(bts))
+            others = [(d, b""), (d + 1, bytes(bts)), (d, bytes(B)), (d, bytes(bts) + b"\1")]
+            desc = f"p0=={d} && p1.length=={B} && p1[{j}]=={v:#x}"
+        else:
+            sig = "check_both(uint256[],bytes)"
+            wit = (arr, bytes(bts))
+            others = [([], b""), (arr, bytes(B)), ([0] * len(arr), bytes(bts))]
+            desc = f"p0.length=={L} && p0[{k}]=={c:#x} && p1.length=={B} && p1[{j}]=={v:#x}"
+        body += panic(1) + [("LABEL", end), "STOP"]
+        fns.append(Fn(sig, body))
+        m = TestMeta(sig, 2, [], [], f"if({desc}) panic(1)", leaves={"panic1", "ok"})
+        m.dyn_tuples = [wit] + others
+        m.dyn_bounds = (alens, blens)
+        metas.append(m)
+    return Contract(name, fns), metas, cli
